@@ -1418,7 +1418,7 @@ pub fn prop_from(s: &str) -> Option<Prop> {
 fn rule_for(p: Prop) -> &'static str {
     match p {
         Prop::C01 => "generated DHCP histories (3-6 clients incl. identity overlaps, pools of 1-5 addresses, reservations, clock advances around lease boundaries, config switches) through dhcp::handle_pkt; every reply checked against the ownership map built from the rows the server recorded; distinct = (message kind, address named via, server-id kind, client holds a lease, pool contention, outcome)",
-        Prop::C09 => "same histories; every answered step checked: held address returned, named held address returned, refusal only when every pool address is held by another client; distinct = (message kind, named via, server-id kind, holds, contention, outcome)",
+        Prop::C09 => "same histories; every answered step checked: held address returned, named held address returned, refusal only when every pool address is held by another client; distinct = (message kind, named via, server-id kind, holds, contention, outcome); plus pools of 1100..4094 addresses filled through allocate_address until 1..5 are free: newcomers must be given exactly the free ones before anybody is refused",
         Prop::C10 => "same histories with renewal rhythms; every reply: option 51 present, 300<=L<=86400, recorded expiry-start = L, recorded expiry >= t+L; after EVERY later message each still-running earlier promise (address, client, t+L) must still be backed by its row unless a newer reply for that address superseded it; distinct = step classes plus lease-length buckets reached",
         Prop::C13 => "same histories plus every message type 0..255/absent, server-id absent/own/foreign/wrong length, extra options, interfaces without a pool; full-row snapshot diff around every call and header/option echo comparison; distinct = step classes",
         Prop::C18 => "file-backed histories with restarts (close + reopen) in lock-step with a never-restarted twin: rows identical across reopen, replies identical to the twin's; distinct = step classes",
@@ -1494,7 +1494,80 @@ pub fn run(prop: Prop, seed: u64, params: &HistParams, scratch: &std::path::Path
             Err(_) => total.inconclusive("shard thread died"),
         }
     }
+    if prop == Prop::C09 {
+        let mut leg = total.child();
+        let n = if params.histories > 5_000 { 12 } else { 3 };
+        for k in 0..n {
+            c09_large_pool(&mut leg, seed, k);
+        }
+        total.merge(leg);
+    }
     total
+}
+
+/// C09's refusal clause on pools far larger than the histories use: N addresses of which all but `free` are held by
+/// other clients; newcomers must be given the free ones, and only then be refused.
+fn c09_large_pool(leg: &mut Leg, seed: u64, k: u64) {
+    let mut r = Rng::derive(seed, 0xC09B, k);
+    let n = *r.pick(&[1_100usize, 1_500, 2_046, 3_000, 4_094]);
+    let free = *r.pick(&[1usize, 2, 5]);
+    let replay = json!({"engine": "c09-large-pool", "seed": seed, "k": k, "pool": n, "free": free});
+    leg.eval();
+    let base = u32::from(Ipv4Addr::new(10, 60, 0, 1));
+    let all: Vec<u32> = (0..n as u32).map(|i| base + i).collect();
+    let mut free_set: BTreeSet<u32> = BTreeSet::new();
+    while free_set.len() < free {
+        free_set.insert(*r.pick(&all));
+    }
+    let addrs: pool::PoolAddresses = all.iter().map(|a| Ipv4Addr::from(*a)).collect();
+    let (lo, hi) = (std::time::Duration::from_secs(300), std::time::Duration::from_secs(86_400));
+    let res = guard::guard(|| -> Result<Vec<(String, String)>, String> {
+        let mut p = pool::Pool::new_in_memory().map_err(|e| e.to_string())?;
+        for a in &all {
+            if free_set.contains(a) {
+                continue;
+            }
+            let cid = [b"holder-".to_vec(), a.to_be_bytes().to_vec()].concat();
+            let l = p.allocate_address(&cid, Some(Ipv4Addr::from(*a)), &addrs, lo, hi, b"\xff").map_err(|e| format!("filling the pool: {}", e))?;
+            if u32::from(l.ip) != *a {
+                return Err(format!("filling the pool: asked for {} as a new client, given {}", ipj(*a), l.ip));
+            }
+        }
+        let mut viol = Vec::new();
+        let mut left = free_set.clone();
+        for j in 0..free + 2 {
+            let cid = format!("newcomer-{}-{}", k, j).into_bytes();
+            match p.allocate_address(&cid, None, &addrs, lo, hi, b"\xff") {
+                Ok(l) => {
+                    let a = u32::from(l.ip);
+                    if !left.remove(&a) {
+                        viol.push(("large-pool/newcomer-given-a-held-address".to_string(), format!("pool of {}: newcomer {} given {} which is held", n, j, l.ip)));
+                    }
+                }
+                Err(e) => {
+                    if !left.is_empty() {
+                        viol.push((
+                            "refused-although-an-address-is-free/large-pool".to_string(),
+                            format!("pool of {} addresses, {} held by others, {} still free ({}), yet newcomer {} is refused: {}", n, n - free, left.len(), ipj(*left.iter().next().unwrap()), j, e),
+                        ));
+                        break;
+                    }
+                }
+            }
+        }
+        Ok(viol)
+    });
+    leg.class(format!("large-pool|{}|free{}", n, free));
+    leg.count("large_pool_scenarios", 1);
+    match res {
+        Err(p) => leg.violation(format!("C09/large-pool-panic/{}", p.class()), format!("{} at {}", p.message, p.location), replay),
+        Ok(Err(e)) => leg.inconclusive(format!("large pool scenario: {}", e)),
+        Ok(Ok(viol)) => {
+            for (sig, d) in viol {
+                leg.violation(format!("C09/{}", sig), d, replay.clone());
+            }
+        }
+    }
 }
 
 /// Re-execute a recorded history (replay file written on violation).
